@@ -380,6 +380,38 @@ func c04AEAD(f []string) string {
 		return "wrong"
 	}
 	honest := dec(ct, aad, nonce, kh)
+	if honest == "ok" {
+		// the same arguments as sub-slices of ONE buffer (a zero-copy record decoder: nonce || aad || ciphertext, each
+		// slice with spare capacity reaching into its neighbour): the outcome depends on the bytes, not on where they
+		// live, and the caller's buffer is left as it was
+		for layout := 0; layout < 2 && honest == "ok"; layout++ {
+			parts := [][]byte{nonce, aad, ct}
+			if layout == 1 {
+				parts = [][]byte{ct, nonce, aad}
+			}
+			buf := make([]byte, 0, len(nonce)+len(aad)+len(ct)+32)
+			var cuts []int
+			for _, p := range parts {
+				cuts = append(cuts, len(buf))
+				buf = append(buf, p...)
+			}
+			cuts = append(cuts, len(buf))
+			buf = append(buf, bytes.Repeat([]byte{0xEE}, 32)...) // a guard zone after the last argument
+			before := append([]byte{}, buf...)
+			sl := func(i int) []byte { return buf[cuts[i]:cuts[i+1]] } // capacity runs to the end of the buffer
+			var r string
+			if layout == 0 {
+				r = dec(sl(2), sl(1), sl(0), kh)
+			} else {
+				r = dec(sl(0), sl(2), sl(1), kh)
+			}
+			if !bytes.Equal(buf, before) {
+				honest = "clobbered-arguments"
+			} else if r != "ok" {
+				honest = "fail-when-arguments-share-a-buffer"
+			}
+		}
+	}
 	c3, a3, n3, h3 := ct, aad, nonce, kh
 	applied := true
 	arg := 0
